@@ -439,7 +439,9 @@ def concrete_call(c, rng, body_len, exhaustive_slot=None):
     hs = []
     for h in c["hs"]:
         n = rng.choice(NAMES[h["n"]])
-        if h["n"] == "cl" and h["v"] == "plain":
+        if h["n"] == "hop" and n.lower() == "connection" and h["v"] == "plain":
+            v = rng.choice(["close", "upgrade", "Upgrade", "keep-alive", "v1"])
+        elif h["n"] == "cl" and h["v"] == "plain":
             v = str(body_len)
         elif h["n"] == "upgrade" and h["v"] == "plain":
             v = "websocket"
@@ -453,6 +455,8 @@ def c09_exchange(case, rng, kind="sync"):
     """case: c1, c2 (or None), exc, between -> trace"""
     body = b"body"
     st1, hs1 = concrete_call(case["c1"], rng, len(body))
+    if case.get("force_upgrade") and hs1:
+        hs1[0] = (rng.choice(["Connection", "connection", "CONNECTION"]), rng.choice(["upgrade", "Upgrade"]))
     st2, hs2 = concrete_call(case["c2"], rng, len(body)) if case["exc"] != "none" else (None, None)
     ev = []
     holder = {}
@@ -481,7 +485,9 @@ def c09_exchange(case, rng, kind="sync"):
                 ev.append({"e": "call", "who": 2, "raised": False, "sent": before})
             except BaseException:
                 ev.append({"e": "call", "who": 2, "raised": True, "sent": before})
-                raise
+                if not case.get("swallow"):
+                    raise
+                # the application catches the refusal and carries on with the response it had started
         return [body]
 
     cfg = drv.make_cfg(keepalive=2)
@@ -529,13 +535,15 @@ def c09_exchange(case, rng, kind="sync"):
             head["server_ok"] = ok
             accepted2 = called2 and not raised2 and case["exc"] == "given"
             order = ((2, hs2), (1, hs1)) if accepted2 else ((1, hs1), (2, hs2))
+            used = set()
             for x in rest[nserver:]:
                 found = None
                 for who_k, hs in order:
                     for idx, (n, v) in enumerate(hs or []):
                         try:
-                            if x == "%s: %s" % (n, v.strip(" \t")):
+                            if (who_k, idx) not in used and x == "%s: %s" % (n, v.strip(" \t")):
                                 found = [who_k, idx + 1]
+                                used.add((who_k, idx))
                                 break
                         except Exception:
                             pass
@@ -592,8 +600,13 @@ def c09(ctx):
         hs = [{"n": rng.choice(list(NAMES)), "v": rng.choice(list(VALUES))} for _ in range(rng.randint(0, 3))]
         hs2 = [{"n": rng.choice(["tok", "hop", "cr_in", "cl"]), "v": rng.choice(["plain", "lf", "nul", "obs"])} for _ in range(rng.randint(0, 2))]
         cases.append({"c1": {"st": rng.choice(["ok", "ok", "ok", "inject", "nonlatin1"]), "hs": hs},
-                      "c2": {"st": rng.choice(["ok", "ok", "cr"]), "hs": hs2},
-                      "exc": rng.choice(["none", "given", "given", "absent"]), "between": rng.random() < 0.4})
+                      "c2": {"st": rng.choice(["ok", "ok", "cr", "inject"]), "hs": hs2},
+                      "exc": rng.choice(["none", "given", "given", "absent"]), "between": rng.random() < 0.4,
+                      "swallow": rng.random() < 0.4})
+    # hop-by-hop headers listed AFTER "Connection: upgrade" in the same call (order inside one header list)
+    for _ in range(40 if ctx.quick else 400):
+        hs = [{"n": "hop", "v": "plain"}] + [{"n": rng.choice(["hop", "hop", "tok", "upgrade"]), "v": "plain"} for _ in range(rng.randint(1, 3))]
+        cases.append({"c1": {"st": "ok", "hs": hs}, "c2": None, "exc": "none", "between": False, "force_upgrade": True})
     reps = 1 if ctx.quick else 4
     for case in cases:
         for _ in range(reps):
